@@ -448,6 +448,17 @@ func (r *Reader) traverseNodeFiltered(n *html.Node, ctx *parseContext, elements 
 			}
 
 			for c := n.FirstChild; c != nil; c = c.NextSibling {
+				if c.Type == html.ElementNode && c.Data != "li" && c.Data != "ul" && c.Data != "ol" && !shouldSkipElement(c.Data) {
+					// Malformed markup: content placed directly in the list (the
+					// parser keeps e.g. <ul><div>...</div></ul> as written). Keep
+					// it as an item of this list: emitting it as a block of its own
+					// would put it before the items collected so far, and flushing
+					// the list here would lose the items that follow.
+					if ctx.checker == nil || !ctx.checker.shouldExclude(c) {
+						r.collectListItem(c, ctx, elements)
+					}
+					continue
+				}
 				r.traverseNodeFiltered(c, ctx, elements)
 			}
 
@@ -470,33 +481,7 @@ func (r *Reader) traverseNodeFiltered(n *html.Node, ctx *parseContext, elements 
 
 		case "li":
 			if ctx.inList {
-				// Walk the children in document order. Text and any non-list
-				// content (inline elements, paragraphs, block quotes, ...) make up
-				// the item's text; a nested list ends the text collected so far
-				// and is traversed one level deeper, so text that follows it stays
-				// after it.
-				var text strings.Builder
-				flushItem := func() {
-					if t := strings.TrimSpace(text.String()); t != "" {
-						ctx.listItems = append(ctx.listItems, listItem{
-							Text:    t,
-							Level:   ctx.listLevel,
-							Ordered: ctx.listOrdered,
-						})
-					}
-					text.Reset()
-				}
-				for c := n.FirstChild; c != nil; c = c.NextSibling {
-					if c.Type == html.ElementNode && (c.Data == "ul" || c.Data == "ol") {
-						flushItem()
-						ctx.listLevel++
-						r.traverseNodeFiltered(c, ctx, elements)
-						ctx.listLevel--
-						continue
-					}
-					getTextContentRecursive(c, &text)
-				}
-				flushItem()
+				r.collectListItem(n, ctx, elements)
 			}
 			return
 
@@ -570,6 +555,36 @@ func (r *Reader) traverseNodeFiltered(n *html.Node, ctx *parseContext, elements 
 	for c := n.FirstChild; c != nil; c = c.NextSibling {
 		r.traverseNodeFiltered(c, ctx, elements)
 	}
+}
+
+// collectListItem adds the content of a list item to the list being built.
+// The children are walked in document order. Text and any non-list content
+// (inline elements, paragraphs, block quotes, ...) make up the item's text; a
+// nested list ends the text collected so far and is traversed one level deeper,
+// so text that follows it stays after it.
+func (r *Reader) collectListItem(n *html.Node, ctx *parseContext, elements *[]parsedElement) {
+	var text strings.Builder
+	flushItem := func() {
+		if t := strings.TrimSpace(text.String()); t != "" {
+			ctx.listItems = append(ctx.listItems, listItem{
+				Text:    t,
+				Level:   ctx.listLevel,
+				Ordered: ctx.listOrdered,
+			})
+		}
+		text.Reset()
+	}
+	for c := n.FirstChild; c != nil; c = c.NextSibling {
+		if c.Type == html.ElementNode && (c.Data == "ul" || c.Data == "ol") {
+			flushItem()
+			ctx.listLevel++
+			r.traverseNodeFiltered(c, ctx, elements)
+			ctx.listLevel--
+			continue
+		}
+		getTextContentRecursive(c, &text)
+	}
+	flushItem()
 }
 
 // parseTable extracts a table from an HTML table element.
